@@ -215,7 +215,7 @@ package packfile
 
 // Copy instruction encoder (round trip with the decoders' spec, git delta.h).
 //gvc:func encodeCopyOperation
-//gvc:  props C06
+//gvc:  props C06 C07
 //gvc:  theory bv
 //gvc:  loop 1 unroll 4
 //gvc:  requires range: 0 <= offset && offset <= 0xffffffff && 1 <= length && length <= 0xffffff
